@@ -260,7 +260,10 @@ pub struct InstCfg {
     pub irrelevant: bool,
     pub dup_positions: bool,
     pub metadata: bool,
+    /// `function: None` on constraints / objective
     pub absent_functions: bool,
+    /// a present Function message whose oneof is unset
+    pub unset_oneof: bool,
 }
 
 impl InstCfg {
@@ -277,6 +280,7 @@ impl InstCfg {
             dup_positions: true,
             metadata: true,
             absent_functions: true,
+            unset_oneof: true,
         }
     }
 }
@@ -418,7 +422,7 @@ pub fn gen_instance(rng: &mut Rng, cfg: &InstCfg) -> GenInstance {
     let mut fcfg = FnCfg::new(pool.clone(), cfg.regime);
     fcfg.max_degree = cfg.max_degree;
     fcfg.dup_positions = cfg.dup_positions;
-    fcfg.allow_unset = cfg.absent_functions;
+    fcfg.allow_unset = cfg.unset_oneof;
     fcfg.max_terms = 6;
     inst.objective = if cfg.absent_functions && rng.chance(1, 10) {
         None
@@ -501,4 +505,34 @@ pub fn var_map(inst: &v1::Instance) -> BTreeMap<u64, &v1::DecisionVariable> {
 
 pub fn sorted_state(s: &v1::State) -> BTreeMap<u64, f64> {
     s.entries.iter().map(|(k, v)| (*k, *v)).collect()
+}
+
+/// well-formed constraint hints: refer to active constraints and defined variables, no repeats
+pub fn gen_hints(rng: &mut Rng, inst: &v1::Instance) -> Option<v1::ConstraintHints> {
+    if inst.constraints.is_empty() || inst.decision_variables.is_empty() || rng.chance(1, 3) {
+        return None;
+    }
+    let cids: Vec<u64> = inst.constraints.iter().map(|c| c.id).collect();
+    let vids: Vec<u64> = inst.decision_variables.iter().map(|v| v.id).collect();
+    let mut h = v1::ConstraintHints::default();
+    for _ in 0..rng.below(3) {
+        let mut o = v1::OneHot::default();
+        o.constraint_id = *rng.pick(&cids);
+        let mut vs = rng.subset(&vids, 1, 2);
+        rng.shuffle(&mut vs);
+        o.decision_variables = vs;
+        h.one_hot_constraints.push(o);
+    }
+    for _ in 0..rng.below(2) {
+        let mut s = v1::Sos1::default();
+        s.binary_constraint_id = *rng.pick(&cids);
+        let mut big = rng.subset(&cids, 1, 2);
+        rng.shuffle(&mut big);
+        s.big_m_constraint_ids = big;
+        let mut vs = rng.subset(&vids, 1, 2);
+        rng.shuffle(&mut vs);
+        s.decision_variables = vs;
+        h.sos1_constraints.push(s);
+    }
+    Some(h)
 }
